@@ -2,7 +2,7 @@
 import ast
 
 from .. import compq, pyq
-from ..pysrc import dotted, norm
+from ..pysrc import dotted, norm, flat
 
 UT = "hy/core/util.hy"
 MC = compq.MC
@@ -48,9 +48,9 @@ def check(ctx, src):
     ctx.check(len(on) == 1 and isinstance(on[0].body[0], ast.Break) and loop.body[-1] is on[0], "MX-LOOP", f"{MC}|macroexpand|once", "`once` must break at the end of the first iteration", MC, loop.lineno, detail="if once: break")
     nm = pyq.contains(loop, lambda n: isinstance(n, ast.If) and norm(n.test) == "not m" and isinstance(n.body[0], ast.Break))
     ctx.check(nm is not None, "MX-LOOP", f"{MC}|macroexpand|no macro", "a head that names no macro must end the loop", MC, loop.lineno, detail="if not m: break")
-    hd = next((n for n in loop.body if isinstance(n, ast.If) and "fn[0] == Symbol('.')" in " ".join(ast.unparse(n.test).split())), None)
+    hd = next((n for n in loop.body if isinstance(n, ast.If) and "fn[0] == Symbol('.')" in flat(n.test)), None)
     ctx.require(hd is not None, "head classification not found")
-    t = " ".join(ast.unparse(hd.test).split())
+    t = flat(hd.test)
     ctx.check(t == "isinstance(fn, Expression) and fn and (fn[0] == Symbol('.')) and all((isinstance(x, Symbol) for x in fn))", "MX-HEAD", f"{MC}|macroexpand|dotted head", f"dotted-head test is `{t}`; the emptiness test must precede fn[0]", MC, hd.lineno,
               witness="(hy.macroexpand-1 '(() 1)) raises IndexError instead of returning the model", detail="isinstance and fn and fn[0] == '.' and all symbols")
     el = hd.orelse[0] if hd.orelse and isinstance(hd.orelse[0], ast.If) else None
